@@ -678,6 +678,17 @@ func totalAdversary(f Fields) (dec string, b []byte) {
 		}
 		st = append(st, 0xff, 0xff) // componentCount 65535
 		return "gpos", totalGtabWrap(5, st)
+	case "t2op": // one Type 2 operator with crafted operands inside a minimal CFF
+		var params []int
+		for _, k := range []string{"a", "b"} {
+			if f[k] != "" {
+				params = append(params, f.Int(k))
+			}
+		}
+		if totalT2Ops[f["op"]] == nil {
+			return "", nil
+		}
+		return "cff", totalT2OpCase(f["op"], num("n", 0), params, f["sub"] == "1")
 	case "chain3-alias":
 		return "gsub", totalChain3Aliased(num("k", 2))
 	case "t2-nested-gsubrs": // §9 #26
@@ -787,15 +798,46 @@ func totalSeedBlock(name string, fn func()) {
 // totalSafely runs a piece of GENERATOR code that calls into the library; a panic there becomes a
 // failing D case (`total.genpanic`), never a crash of the harness.
 func totalSafely(c *Ctx, name string, fn func()) {
-	defer func() {
-		if r := recover(); r != nil {
-			site := totalPanicSite() + ":" + totalPanicClass(r)
-			c.Stat("generator-panic", name+" "+site)
-			c.Case(Direct, "total.genpanic", "gen="+name+" site="+site, true)
-		}
+	done := make(chan string, 1)
+	go func() {
+		defer func() {
+			if r := recover(); r != nil {
+				done <- totalPanicSite() + ":" + totalPanicClass(r)
+				return
+			}
+			done <- ""
+		}()
+		fn()
 	}()
-	fn()
+	// A generator produces many cases; it is bounded by a watchdog on PROGRESS, not on its total run time:
+	// if no new case was recorded for caseTimeout, the generator hangs inside a library call.
+	last, lastEvals := time.Now(), c.evals
+	for {
+		select {
+		case site := <-done:
+			if site != "" {
+				c.Stat("generator-panic", name+" "+site)
+				c.Case(Direct, "total.genpanic", "gen="+name+" site="+site, true)
+			}
+			return
+		case <-time.After(500 * time.Millisecond):
+			if c.evals != lastEvals {
+				last, lastEvals = time.Now(), c.evals
+			} else if time.Since(last) > caseTimeout+2*time.Second {
+				// the goroutine is abandoned (it may keep spinning): counts like a case time-out
+				timeouts++
+				c.Stat("generator-hang", name)
+				totalGeneratorHung = true
+				c.Case(Direct, "total.genpanic", "gen="+name+" site=hang-in-generator-side-library-call", true)
+				return
+			}
+		}
+	}
 }
+
+// totalGeneratorHung: a generator goroutine was abandoned while possibly still writing cases; the run
+// emits nothing further from generator code that shares its state.
+var totalGeneratorHung bool
 
 // totalModelBudgetDiv: divisor of the case budget for model groups whose driver side is slow.
 var totalModelBudgetDiv = map[string]int{}
@@ -2273,6 +2315,92 @@ func totalChain3Aliased(k int) []byte {
 	return totalGtabWrap(6, st)
 }
 
+// ---------------------------------------------------------------- Type 2 charstring operator family
+
+// totalT2Num encodes an operand of a Type 2 charstring.
+func totalT2Num(v int) []byte {
+	switch {
+	case v >= -107 && v <= 107:
+		return []byte{byte(v + 139)}
+	case v >= 108 && v <= 1131:
+		v -= 108
+		return []byte{byte(v>>8) + 247, byte(v)}
+	case v <= -108 && v >= -1131:
+		v = -v - 108
+		return []byte{byte(v>>8) + 251, byte(v)}
+	case v >= -32768 && v <= 32767:
+		return []byte{28, byte(v >> 8), byte(v)}
+	}
+	// "big": 16.16 fixed, integer part clipped
+	if v > 32767 {
+		v = 32767
+	} else if v < -32768 {
+		v = -32768
+	}
+	return []byte{255, byte(v >> 8), byte(v), 0x80, 0x00}
+}
+
+var totalT2Ops = map[string][]byte{
+	"hstem": {1}, "vstem": {3}, "vmoveto": {4}, "rlineto": {5}, "hlineto": {6}, "vlineto": {7}, "rrcurveto": {8},
+	"callsubr": {10}, "return": {11}, "endchar": {14}, "hstemhm": {18}, "hintmask": {19}, "cntrmask": {20},
+	"rmoveto": {21}, "hmoveto": {22}, "vstemhm": {23}, "rcurveline": {24}, "rlinecurve": {25}, "vvcurveto": {26},
+	"hhcurveto": {27}, "callgsubr": {29}, "vhcurveto": {30}, "hvcurveto": {31},
+	"and": {12, 3}, "or": {12, 4}, "not": {12, 5}, "abs": {12, 9}, "add": {12, 10}, "sub": {12, 11}, "div": {12, 12},
+	"neg": {12, 14}, "eq": {12, 15}, "drop": {12, 18}, "put": {12, 20}, "get": {12, 21}, "ifelse": {12, 22},
+	"random": {12, 23}, "mul": {12, 24}, "sqrt": {12, 26}, "dup": {12, 27}, "exch": {12, 28}, "index": {12, 29},
+	"roll": {12, 30}, "hflex": {12, 34}, "flex": {12, 35}, "hflex1": {12, 36}, "flex1": {12, 37},
+	"reserved0": {0}, "reserved2": {2}, "esc-reserved": {12, 0}, "esc-255": {12, 255},
+}
+
+// totalT2Critical: operators whose operands are counts, indices or shifts.
+var totalT2Critical = []string{"roll", "index", "put", "get", "callsubr", "callgsubr", "ifelse", "dup", "exch", "drop"}
+
+// totalMiniCFF: a minimal CFF font program with ONE glyph whose charstring is `glyph`, the given global
+// subroutines, an empty Private DICT and no local subroutines.
+func totalMiniCFF(glyph []byte, gsubrs [][]byte) []byte {
+	name := totalCffWriteIndex([][]byte{[]byte("A")})
+	strs := totalCffWriteIndex(nil)
+	gs := totalCffWriteIndex(gsubrs)
+	chars := totalCffWriteIndex([][]byte{glyph})
+	topLen := 5 + 1 + 5 + 5 + 1 // CharStrings offset op 17; Private size, offset op 18
+	top := totalCffWriteIndex([][]byte{make([]byte, topLen)})
+	csOff := 4 + len(name) + len(top) + len(strs) + len(gs)
+	privOff := csOff + len(chars)
+	var d []byte
+	d = append(d, totalDictInt5(csOff)...)
+	d = append(d, 17)
+	d = append(d, totalDictInt5(0)...)
+	d = append(d, totalDictInt5(privOff)...)
+	d = append(d, 18)
+	b := []byte{1, 0, 4, 4}
+	b = append(b, name...)
+	b = append(b, totalCffWriteIndex([][]byte{d})...)
+	b = append(b, strs...)
+	b = append(b, gs...)
+	b = append(b, chars...)
+	return b
+}
+
+// totalT2OpCase: `n` filler operands, then the parameters, then the operator, then endchar — in the glyph
+// itself (sub=0) or in global subroutine 0 called from the glyph (sub=1).
+func totalT2OpCase(op string, n int, params []int, inSub bool) []byte {
+	var code []byte
+	for i := 0; i < n; i++ {
+		code = append(code, totalT2Num(10*(i+1))...)
+	}
+	for _, p := range params {
+		code = append(code, totalT2Num(p)...)
+	}
+	code = append(code, totalT2Ops[op]...)
+	if !inSub {
+		code = append(code, 14)
+		return totalMiniCFF(code, nil)
+	}
+	code = append(code, 11) // return
+	glyph := append(totalT2Num(0-107), 29, 14)
+	return totalMiniCFF(glyph, [][]byte{code})
+}
+
 // ---------------------------------------------------------------- mutations
 
 func totalMutate(r *Rng, b []byte) ([]byte, string) {
@@ -2983,6 +3111,60 @@ func areaTotal(c *Ctx) {
 	}
 	// decoder alone (acc=0): re-encoding a GDEF whose sets share one 65536-glyph coverage table converts
 	// the shared set once per reference (Encode calls ToTable three times per set), which is accessor cost
+	// family: every Type 2 charstring operator with operands from {−N−1, −N, −1, 0, 1, N−1, N, N+1, 32767,
+	// −32768, big} in the count/index/shift positions (N = number of operands below), in a glyph and in a
+	// subroutine, wrapped in a minimal CFF
+	{
+		opNames := make([]string, 0, len(totalT2Ops))
+		for o := range totalT2Ops {
+			opNames = append(opNames, o)
+		}
+		sort.Strings(opNames)
+		crit := map[string]bool{}
+		for _, o := range totalT2Critical {
+			crit[o] = true
+		}
+		k := 0
+		t2 := func(args string) {
+			out := c.Case(Direct, "total.adv", "kind=t2op "+args, true)
+			cls := out
+			if out == "total" {
+				cls = totalLast.class
+			} else if i := strings.Index(out, ":"); i >= 0 {
+				cls = out[:i]
+			}
+			c.Stat("t2-operator-family", strings.Fields(args)[0]+" -> "+cls)
+			if out != "total" && out != "skipped" {
+				c.Stat("finding-class", "adv kind=t2op "+args+" "+out)
+			}
+		}
+		adv("kind=t2op op=endchar") // the minimal CFF itself must decode
+		for _, o := range opNames {
+			ns := []int{0, 2}
+			if crit[o] {
+				ns = []int{0, 1, 2, 3}
+			}
+			for _, n := range ns {
+				vals := []int{-n - 1, -n, -1, 0, 1, n - 1, n, n + 1, 32767, -32768, 1 << 20}
+				t2(fmt.Sprintf("op=%s n=%d sub=%d", o, n, k%2))
+				for _, a := range vals {
+					k++
+					t2(fmt.Sprintf("op=%s n=%d a=%d sub=%d", o, n, a, k%2))
+					if !crit[o] {
+						continue
+					}
+					for _, b := range vals {
+						if c.Tier != "thorough" && (b == n-1 || b == 1<<20) {
+							continue
+						}
+						k++
+						t2(fmt.Sprintf("op=%s n=%d a=%d b=%d sub=%d", o, n, a, b, k%2))
+					}
+				}
+			}
+		}
+	}
+
 	// families "header straddling the end of the table" (two-stage length checks)
 	for k := 0; k <= 15; k++ {
 		for _, fm := range []int{0, 2, 4, 6, 8, 10, 12, 13, 14} {
